@@ -5,6 +5,12 @@ sys.path.insert(0, '/verif/lib')
 import props
 
 LEVEL = {
+ "C14": ("Psk.tla fixes the DVB-S2 8PSK label table (typed from EN 302 307-1 Fig. 10) and BPSK points on constellation indices; TLC verifies bijection, the Gray property, balanced bit partitions and the noiseless "
+         "round trip for every bit sequence up to length 9. The real modulators/demodulators are bound by trace validation: octant index and unit energy of every modulated triple through four input memory layouts, "
+         "demodulated LLRs on a polar grid / random samples / sigma 0.01..100 against the posterior computed from the spec's table (TLC checks the harness copy of the table equals the spec and evaluates the tolerance "
+         "1e-13*max(1, scale) and sign clauses), and hard-decision round trips for all short and random long sequences.",
+         "TLC + Json/IOUtils; log-sum-exp posterior oracle in f64 in the harness.",
+         "TLA+ constellation specification + trace validation of modulate/demodulate calls", "5 C14"),
  "C15": ("Chain.tla states the interleaver as the index map of the statement, the deinterleaver as an independently written inverse map, and puncture / depuncture / rate on blocks. TLC checks for every (C, R, direction) "
          "up to 5x5 (6x6) and every pattern up to length 4 (5) that interleave is a permutation obeying the formula, deinterleave inverts it, puncture keeps exactly the TRUE blocks in order and depuncture restores them with zeros; "
          "a wrong inverse order is a negative configuration. The real Interleaver (u32, f64, GF2 element types) and Puncturer are bound by trace validation on tagged inputs: TLC recomputes every output index, and lengths that do not "
